@@ -1,0 +1,75 @@
+//go:build verif
+
+package nfsv4
+
+import (
+	"fmt"
+	"sort"
+
+	"github.com/buildbarn/go-xdr/pkg/protocols/nfsv4"
+)
+
+// This file only exists in builds with the "verif" tag. It lets the
+// verification harness check that no call into the NFSv4 programs or
+// the OpenedFilesPool leaves a lock behind. Nothing in here modifies
+// any state.
+
+// VerifProgramHeldLocks returns the names of the mutexes of an NFSv4
+// program that cannot be acquired right now. The second return value is
+// false if the program is neither of the two implementations in this
+// package. While the lock of the NFSv4.1 program that protects the
+// table of clients is held, the per-client locks cannot be enumerated
+// and are not reported.
+func VerifProgramHeldLocks(program nfsv4.Nfs4Program) ([]string, bool) {
+	switch p := program.(type) {
+	case *nfs40Program:
+		if !p.lock.TryLock() {
+			return []string{"nfs40Program.lock"}, true
+		}
+		p.lock.Unlock()
+		return nil, true
+	case *nfs41Program:
+		if !p.clientsLock.TryLock() {
+			return []string{"nfs41Program.clientsLock"}, true
+		}
+		defer p.clientsLock.Unlock()
+		var held []string
+		for clientID, cis := range p.clientIncarnationsByClientID {
+			if cis.lock.TryLock() {
+				cis.lock.Unlock()
+			} else {
+				held = append(held, fmt.Sprintf("clientIncarnationState.lock of client %#x", uint64(clientID)))
+			}
+		}
+		sort.Strings(held)
+		return held, true
+	default:
+		return nil, false
+	}
+}
+
+// VerifProgramLocksAreFree reports whether all mutexes of an NFSv4
+// program can be acquired right now.
+func VerifProgramLocksAreFree(program nfsv4.Nfs4Program) (free, ok bool) {
+	held, ok := VerifProgramHeldLocks(program)
+	return ok && len(held) == 0, ok
+}
+
+// VerifLocksAreFree reports whether the lock of the pool and the
+// byte-range lock table locks of all opened files can be acquired right
+// now.
+func (ofp *OpenedFilesPool) VerifLocksAreFree() bool {
+	if !ofp.lock.TryLock() {
+		return false
+	}
+	defer ofp.lock.Unlock()
+	free := true
+	for _, of := range ofp.filesByHandle {
+		if of.locksLock.TryLock() {
+			of.locksLock.Unlock()
+		} else {
+			free = false
+		}
+	}
+	return free
+}
